@@ -113,14 +113,14 @@ class C06(Prop):
         'quick': 'all strings of length <= 3 over the 25-character alphabet and '
                  'of length <= 2 over the 64-token alphabet, x tolerance {0,1}',
         'thorough': 'all strings of length <= 5 over the 25-character alphabet '
-                    'and of length <= 4 over the 64-token alphabet, x tolerance {0,1}',
+                    'and of length <= 3 over the 64-token alphabet, x tolerance {0,1}',
     }
 
     def cases(self, tier, seed, want):
         q = tier == 'quick'
         k = 0
         # exhaustive parts (bounds differ per tier), then sampled longer ones
-        Lc, Lt = (3, 2) if q else (5, 4)
+        Lc, Lt = (3, 2) if q else (5, 3)
         for k2, tup in strgen.enum_strings(strgen.CHARS, 0, Lc, start_k=k):
             if want(k2):
                 yield k2, {'s': ''.join(tup), 'w': 'chars'}
